@@ -192,6 +192,34 @@ def bounded_recursion(P, R, pc, rule='C14.MPT.5'):
     R.floor(rule, 2, 'recursive functions reachable from conf_read')
 
 
+def defaults_read_only(P, R, rule='C14.OWN.6'):
+    """A registered default outlives every load: after registration nothing writes it - neither directly nor by handing
+    it to a function that writes through the pointer it is given (a setter that MOVES strings out of the vector it
+    receives empties the default the second time a setting falls back to it, and a later fall-back reads NULLs)."""
+    unit = P.need_fn('conf_read').unit
+    wp = P.written_params()
+    n = 0
+    for f in P.unit_fns(unit):
+        if f.name.startswith('conf_register_') or f.name in ('conf_object_cleanup',):
+            continue
+        for s in f.sites():
+            ev = s.ev
+            if ev['k'] == 'store':
+                lv = ev.get('lhs')
+                if any(isinstance(x, dict) and x.get('k') == 'mem' and str(x.get('field', '')).startswith('def_') for x in walk(lv)):
+                    n += 1
+                    R.ob(rule, False, s, '%s writes the registered default %s' % (f.name, sx(lv)), key='default-written:%s' % f.name)
+            if ev['k'] == 'call':
+                for i in P.call_written_args(s, wp):
+                    if i < len(ev['args']) and any(isinstance(x, dict) and x.get('k') == 'mem' and str(x.get('field', '')).startswith('def_') for x in walk(ev['args'][i])):
+                        n += 1
+                        R.ob(rule, False, s, '%s hands the registered default %s to %s, which writes through that argument' % (f.name, sx(ev['args'][i]), ev.get('callee')), key='default-written:%s' % f.name)
+                if any(isinstance(x, dict) and x.get('k') == 'mem' and str(x.get('field', '')).startswith('def_') for a in ev['args'] for x in walk(a)):
+                    n += 1
+                    R.ob(rule, True, s, '%s passes a registered default to %s read-only' % (f.name, ev.get('callee')), key='default-read:%s' % f.name, nontrivial=False)
+    R.floor(rule, 2, 'uses of registered defaults outside registration')
+
+
 def ownership(P, R, rule='C14.OWN.1'):
     rv = P.need_fn('conf_replace_value')
     n = 0
@@ -427,6 +455,10 @@ def bounds(P, R):
     if sentinel == 0:
         sentinel = None
     R.ob('C14.BND.1', ok, al[0] if al else rf, 'the file buffer has size+K bytes, every byte after the file\'s contents is written and the last one is the NUL, before it is returned', key='file-buffer')
+    if al:
+        # what is returned is what was allocated (the caller frees it): the variable is never stepped or re-pointed
+        moved = [t for t in rf.stores() if t.ev['k'] == 'store' and is_var(t.ev.get('lhs'), al[0].ev['lhs']['name']) and t.key != al[0].key]
+        R.ob('C14.BND.1', not moved, moved[0] if moved else al[0], 'the pointer the file reader returns is the start of the block it allocated (the caller frees it)', key='file-buffer-base', nontrivial=bool(moved))
     rd = [s for s in rf.calls('fread')]
     R.ob('C14.BND.1', bool(rd) and on_path(rd[0].ev['args'][1], 'st_size') or (bool(rd) and on_path(rd[0].ev['args'][2], 'st_size')), rd[0] if rd else rf, 'at most size bytes are read into it', key='file-read', nontrivial=False)
     R.floor('C14.BND.1', 2)
@@ -877,6 +909,7 @@ def run(P, R, tier):
     pc = phase_separation(P, R)
     merge_position(P, R, pc)
     bounded_recursion(P, R, pc)
+    defaults_read_only(P, R)
     ownership(P, R)
     bounds(P, R)
     # the parser and the merge keep nothing from one load (or one entry, or one nested call) to the next
